@@ -117,6 +117,10 @@ def gen(count, backends):
         ]
         for c in first:
             yield dict(c, backend="serial", search="random", dur=0.02 if any(k[0].startswith("timeout") for k in c["calls"]) else 0.0)
+        # a timed call that ends on its evaluation budget BEFORE the timeout, followed by a call that lasts longer than what was
+        # left of that time budget (slow jobs): a time budget that is not cleared fires in the later call
+        yield dict(calls=[["timeout_max", 1], ["plain", 5]], workers=1, backend="serial", search="random", dur=0.3)
+        yield dict(calls=[["timeout_max", 2], ["strict", 5]], workers=1, backend="thread", search="random", dur=0.3)
         n = count * (2 if tier == "search" else 1)
         for i in range(n):
             L = rng.randint(1, 4 if tier != "search" else 3)
@@ -129,8 +133,9 @@ def gen(count, backends):
                     if nt > 1:  # keep the wall time bounded: at most one timeout call per history
                         k = "plain"
                 calls.append([k, rng.choice([1, 2, 5])])
-            yield dict(calls=calls, workers=rng.choice([1, 3, 4]), backend=backends[i % len(backends)],
-                       search="random" if i % 3 else "cbo", dur=0.02 if nt else 0.0, seed=rng.randint(0, 1000))
+            slow = nt and any(k == "timeout_max" for k, _ in calls) and rng.random() < 0.5
+            yield dict(calls=calls, workers=rng.choice([1, 3, 4]) if not slow else 1, backend=backends[i % len(backends)],
+                       search="random" if i % 3 else "cbo", dur=(0.3 if slow else 0.02) if nt else 0.0, seed=rng.randint(0, 1000))
     return g
 
 
